@@ -165,7 +165,43 @@ def correspond(ctx, scale):
                         failures.append({'key': f'{key}:loss-shape', 'what': f'{info}: loss shape {tuple(loss.shape)} != documented {sp["loss"]}', 'case': dict(kw=sp['kw'])})
         if len(samples) < 5 and sp['name'] != 'vq':
             samples.append(dict(cls=sp['name'], kw={k: (v if not callable(v) else str(v)) for k, v in sp['kw'].items()}, layout=sp['layout']))
-    # masks / dropout: -1 exactly at padded / dropped entries is C09 / C12; here only: -1 never appears without a mask or dropout
+    # quantize-dropout in training: dropped layers report -1 but indices stay integer-typed and keep the documented shape
+    from vector_quantize_pytorch import ResidualVQ, GroupedResidualVQ, ResidualFSQ, ResidualLFQ, ResidualSimVQ
+    import random as _r
+    for mk, dim, grouped in ((lambda: ResidualVQ(dim=3, num_quantizers=4, codebook_size=5, quantize_dropout=True), 3, False),
+                             (lambda: ResidualVQ(dim=3, num_quantizers=4, codebook_size=5, quantize_dropout=True, accept_image_fmap=True), 3, False),
+                             (lambda: GroupedResidualVQ(dim=4, groups=2, num_quantizers=3, codebook_size=5, quantize_dropout=True), 4, True),
+                             (lambda: ResidualFSQ(levels=[3, 3], num_quantizers=4, dim=2, quantize_dropout=True), 2, False),
+                             (lambda: ResidualLFQ(dim=3, codebook_size=8, num_quantizers=4, quantize_dropout=True), 3, False),
+                             (lambda: ResidualSimVQ(dim=3, num_quantizers=4, codebook_size=5, quantize_dropout=True), 3, False)):
+        q = mk()
+        q.train()
+        image = getattr(q, 'accept_image_fmap', False) and not grouped
+        for seed in range(6):
+            x = torch.randn(2, dim, 2, 3) if image else torch.randn(2, 3, dim)
+            ev += 1
+            dist['dropout'] = dist.get('dropout', 0) + 1
+            try:
+                if grouped:
+                    import vector_quantize_pytorch.residual_vq as _m
+                    old = _m.get_maybe_sync_seed
+                    _m.get_maybe_sync_seed = lambda device, max_size=10000: seed
+                    try:
+                        ret = q(x)
+                    finally:
+                        _m.get_maybe_sync_seed = old
+                else:
+                    ret = q(x, rand_quantize_dropout_fixed_seed=seed)
+            except Exception as ex:
+                failures.append({'key': f'{type(q).__name__}:dropout:exception', 'what': f'{type(q).__name__} with quantize_dropout (seed {seed}): {ex!r}', 'case': dict(cls=type(q).__name__, seed=seed)})
+                continue
+            idx = ret[1]
+            if idx.dtype not in (torch.int32, torch.int64):
+                failures.append({'key': f'{type(q).__name__}:dropout:index-dtype', 'what': f'{type(q).__name__} with quantize_dropout (seed {seed}): indices are {idx.dtype}, not integer-typed', 'case': dict(cls=type(q).__name__, seed=seed)})
+            if tuple(ret[0].shape) != tuple(x.shape):
+                failures.append({'key': f'{type(q).__name__}:dropout:output-shape', 'what': f'{type(q).__name__} with quantize_dropout: output shape {tuple(ret[0].shape)}', 'case': dict(cls=type(q).__name__, seed=seed)})
+            if int(idx.min()) < -1:
+                failures.append({'key': f'{type(q).__name__}:dropout:index-range', 'what': f'{type(q).__name__} with quantize_dropout: index below -1', 'case': dict(cls=type(q).__name__, seed=seed)})
     bad, broken = core.run_cases(ctx, 'c13', HEADER, cases, per_file=400)
     for name, out in broken:
         failures.append({'key': f'coq-eval:{name}', 'what': 'case file did not evaluate: ' + out, 'case': {'file': name}})
